@@ -14,7 +14,7 @@ collinear branch of `findIntersection` the source divides by `lengthToOrigin(d0)
 squared length), so `s0 = a/√q`, `s1 = (a+b)/√q`; only their comparisons with 0 and 1 reach the
 returned count, and those are decided exactly by sign and squares (`a/√q > 1 ⇔ a > 0 ∧ a² > q`).
 `q = 0` makes `s0 = 0/0 = NaN`; every comparison in `findIntersection2` is then false and it
-returns 2 — a zero-length segment "meets" everything on its line; the model keeps that quirk.
+returns 2 — a zero-length first segment "meets" every segment; the model keeps that quirk.
 
 Go panics are values (`Fault.index`, `Fault.slice`); loops whose termination is in question (the
 outer `for {}` and the `for j` loop, whose variable is decremented in its body) take fuel.
